@@ -43,6 +43,17 @@ HIST = {
     "C14-E": "round 3, first exposure: caught",
     "C17-E": "round 3, first exposure: caught",
     "C19-E": "round 3, first exposure: caught",
+    # round 4: one more change for each of the other ten properties, generated after everything above
+    "C01-E": "round 4, first exposure: caught",
+    "C02-E": "round 4, first exposure: MISSED (both backends and the metadata move together; only `drop` re-ordering the remaining columns shows it) -> pairs `X >> helper column >> drop` vs `X` in C02",
+    "C07-E": "round 4, first exposure: caught",
+    "C09-E": "round 4, first exposure: caught",
+    "C10-E": "round 4, first exposure: caught",
+    "C11-E": "round 4, first exposure: caught",
+    "C15-E": "round 4, first exposure: MISSED (window function nested inside an expression after slice_head) -> nested-window templates in C15 / C05, verb kind N in C08",
+    "C16-E": "round 4, first exposure: MISSED by C16 itself (C09's `c09.case.suffix_collides_with_column` covers the shape) -> old references through alias(keep_col_refs=True) with a hidden namesake and a real subquery (C16)",
+    "C18-E": "round 4, first exposure: caught",
+    "C20-E": "round 4, first exposure: MISSED (ColExpr.export(Pandas) of a one-row result) -> table shapes random / one row / empty and ColExpr.export(Pandas) in the target agreement of C20",
 }
 
 TEXT = """## 10. Seeded changes: which checks catch which
@@ -51,8 +62,8 @@ TEXT = """## 10. Seeded changes: which checks catch which
 one property and its own scratch git worktree of /repo under /tmp (nothing from /verif, not the
 other agents' work) and was asked for a small change that breaks the property, still compiles,
 keeps the pinned test-suite green and needs something specific to manifest, plus a demo script.
-Rounds 1 and 2 gave two changes per property each (A/B, C/D), round 3 one more (E) for ten
-properties after the temporal extension.  Every change was confirmed by me before it was kept
+Rounds 1 and 2 gave two changes per property each (A/B, C/D), rounds 3 and 4 one more (E) for
+ten properties each (round 3 after the temporal extension, round 4 at the very end).  Every change was confirmed by me before it was kept
 (`tools/confirm_seed.sh`: scratch worktree of the current /repo HEAD, demo exits 0 on the pristine
 tree and non-zero with the patch, the 64 stable tests pass with the patch) and is stored as
 `seeded/<property>-<letter>/{patch.diff, demo.py, meta.json}`; `meta.json` records what it breaks,
@@ -81,7 +92,12 @@ C12) - again program shapes (non-ASCII strings for `str.len`, one order key twic
 for C12, a too lenient reading of the property on my side, whose correction exposed five genuine
 defects of the unchanged code (F45-F49).  The sub-agents also reported three things that failed on
 the *unchanged* tree while they built their demos; all three were confirmed, reproduced by a new
-template and repaired (F42-F44).  The table below is the state after the last strengthening.
+template and repaired (F42-F44).  Round 4 (one more change for each of the other ten properties) repeated the
+measurement: first exposure 6 of 10 caught (C01, C07, C09, C10, C11, C18), 4 missed (C02, C15, C16,
+C20), each again a missing program shape (column `history`); one more defect of the unchanged tree
+came in as a side remark of a sub-agent (F56).  So on changes the checks were not tuned to, the
+observed detection rate of "own property's quick check" was 12 of 20; after adding the missing
+shapes all are caught.  The table below is the state after the last strengthening.
 
 """
 
